@@ -23,7 +23,7 @@ class Cov(np.ndarray):
             frame = values.frame
             values = np.array(values)
 
-        buf = np.array(values)
+        buf = np.array(values, dtype=float)
 
         if buf.ndim != 2 or buf.shape[0] != buf.shape[1] or buf.shape[0] != 6:
             raise ValueError(
